@@ -54,7 +54,7 @@ TRANSLATOR = os.path.join(VERIF, 'translator')
 RS2LEAN = os.path.join(TRANSLATOR, 'target', 'debug', 'rs2lean')
 
 
-def build_impl(lichess=False, translated=False):
+def build_impl(lichess=False, translated_modules=()):
     """cargo build of the harness against /repo's current working tree with --cfg inkayaku_verif; regenerates Gen"""
     with Lock('build'):
         t = time.time()
@@ -84,10 +84,17 @@ def build_impl(lichess=False, translated=False):
         if not lichess:
             del SOFT_TIE[:]
         rc, out = run(['cargo', 'build', '--offline'], cwd=TRANSLATOR, timeout=1800)
+        failed_modules = None
         if rc == 0:
             rc, out = run([RS2LEAN, REPO, os.path.join(LEAN, 'Inkayaku', 'Gen', 'Rs')], timeout=300)
-        if rc != 0 and translated:
-            SOFT_TIE.append(('rs2lean', 'the Rust-to-Lean translator does not understand the current source (the generated definitions are those of the last translated source):\n' + out[-3000:]))
+            if rc == 3:
+                # keep-going mode: the modules that could not be translated are named, all others were regenerated
+                failed_modules = set(re.findall(r'FAILED module (\w+):', out))
+        if rc != 0 and translated_modules:
+            used = {os.path.splitext(os.path.basename(f))[0] for f in import_closure(translated_modules) if os.sep + os.path.join('Gen', 'Rs') + os.sep in f}
+            hit = sorted(used & failed_modules) if failed_modules is not None else sorted(used)
+            if hit:
+                SOFT_TIE.append(('rs2lean', 'the Rust-to-Lean translator does not understand the current source of the module(s) %s this property depends on (their generated definitions are those of the last translated source):\n%s' % (', '.join(hit), out[-3000:])))
         return time.time() - t
 
 
